@@ -317,7 +317,7 @@ def gen_keyed_cases(rng):
 
 
 def gen_cases(rng, n):
-    cases = gen_big_cases(rng) + gen_keyed_cases(rng)
+    cases = gen_big_cases(rng) + gen_keyed_cases(rng) + gen_derived_cases(rng)
     for k in range(n):
         with_keyed = rng.random() < 0.3
         setup = gen_setup(rng, with_keyed)
@@ -327,6 +327,40 @@ def gen_cases(rng, n):
         cases.append({"setup": setup, "sql": q, "features": feats, "ordered": ordered, "nkeys": nkeys})
     return cases
 
+
+
+def gen_derived_cases(rng):
+    """Derived tables with computed / constant / aggregated columns on the NULL-padded side of outer
+    joins: the padding must make EVERY column of the padded side NULL, also `5 as c`, `x + 1`,
+    `x is null`, `count(*)`; conditions above the join that are TRUE on the padding (`s.c is null`)
+    must keep the padded rows (projection / filter movement across outer joins, constant columns)."""
+    setup = gen_setup(rng, False)
+    deriv = [
+        ("(select x, x + 1 as y, 5 as c from t2) s", "s.x", ["s.y", "s.c"]),
+        ("(select x, x is null as n, 'k' as c from t2) s", "s.x", ["s.n", "s.c"]),
+        ("(select x, count(*) as n, 7 as c from t2 group by x) s", "s.x", ["s.n", "s.c"]),
+        ("(select x, y, 0 as c from t2 where y > 0) s", "s.x", ["s.y", "s.c"]),
+        ("(select p as x, q * 0 as y, 1 as c from t3) s", "s.x", ["s.y", "s.c"]),
+        ("(select distinct x, 2 as c, x as y from t2) s", "s.x", ["s.c", "s.y"]),
+    ]
+    cases = []
+    for d, key, extra in deriv:
+        for jt in ["left join", "right join", "full join"]:
+            lhs = "t1 %s %s on t1.a = %s" % (jt, d, key)
+            sel = "t1.a, t1.b, %s, %s" % (key, ", ".join(extra))
+            qs = ["select %s from %s" % (sel, lhs),
+                  "select %s from %s where %s is null" % (sel, lhs, extra[-1]),
+                  "select %s from %s where %s is not null" % (sel, lhs, extra[-1]),
+                  "select %s from %s where %s is null or t1.b > 1" % (sel, lhs, extra[0]),
+                  "select t1.a, %s from %s where t1.a is null" % (extra[-1], lhs),
+                  "select %s, count(*) from %s group by %s" % (extra[-1], lhs, extra[-1])]
+            for q in rng.sample(qs, 3):
+                cases.append({"setup": setup, "sql": q, "features": ["derived-under-outer-join", jt.replace(" ", "-")], "ordered": False, "nkeys": 0})
+    # the derived table on the preserved side, the base table padded
+    for q in ["select s.x, s.c, t1.a from (select x, 5 as c from t2) s left join t1 on t1.a = s.x",
+              "select s.x, s.c, t1.a from t1 right join (select x, 5 as c from t2) s on t1.a = s.x where t1.a is null"]:
+        cases.append({"setup": setup, "sql": q, "features": ["derived-under-outer-join", "preserved-side"], "ordered": False, "nkeys": 0})
+    return cases
 
 def result_key(case, rows):
     """what the property compares: the bag; and, for ORDER BY, the sequence (all selected
